@@ -1588,11 +1588,43 @@ for text, g, expect in table:
 result = {'violates': bool(bad), 'counterexamples': bad[:3]}
 """
 
+CONTAINMENT_WITNESS = _W_PRELUDE + """
+import datetime
+cases = [
+    ("'value: ' + big", {'big': 16 ** 5000}, {}, None, 'text + an integer too long to print'),
+    ("big + ' units'", {'big': 8 ** 6000}, {}, None, 'an integer too long to print + text'),
+    ('1 / 0', {}, {}, None, 'division by zero'),
+    ('2 ** 100000.5', {}, {}, None, 'power overflow'),
+    ('dd + 1e+30', {'dd': datetime.datetime(2020, 1, 1)}, {}, None, 'datetime far out of range'),
+    ('unknownFunction(1)', {}, {}, 'BareScriptRuntimeError', 'undefined function is the documented runtime error'),
+]
+for extra, what in (({'debug': True}, 'failing library call in debug mode without a logFn'), ({}, 'failing library call')):
+    try:
+        got = execute_script(parse_script('return arrayGet(1, 2)\\n'), dict({'globals': {}}, **extra))
+        got = None if got is None else ('VALUE ' + repr(got)[:60])
+    except Exception as exc:
+        got = 'ESCAPED ' + type(exc).__name__ + ': ' + str(exc)[:80]
+    if got is not None:
+        bad.append({'expression': 'arrayGet(1, 2)', 'what': what, 'expected': 'null', 'observed': got})
+from bare_script.runtime import BareScriptRuntimeError
+for text, g, extra, expect, what in cases:
+    try:
+        got = evaluate_expression(parse_expression(text), dict({'globals': dict(g)}, **extra))
+        got = None if got is None else ('VALUE ' + repr(got)[:60])
+    except BareScriptRuntimeError as exc:
+        got = 'BareScriptRuntimeError'
+    except Exception as exc:
+        got = 'ESCAPED ' + type(exc).__name__ + ': ' + str(exc)[:80]
+    if got != expect:
+        bad.append({'expression': text, 'what': what, 'expected': expect or 'null', 'observed': got})
+result = {'violates': bool(bad), 'counterexamples': bad[:3]}
+"""
+
 ExecuteScriptHelper.native_witness = {'assignment-writes-locals-inside-functions-else-globals': ASSIGNMENT_WITNESS,
                                       'jump-continues-after-the-first-matching-label': JUMP_WITNESS}
 ScriptFunction.native_witness = {'C04.bound-so-far': BINDING_WITNESS, 'C04.parameters-bound-positionally': BINDING_WITNESS}
 EvaluateExpression.native_witness = {'operator-semantics': OPERATOR_WITNESS, 'C03.short-circuit': OPERATOR_WITNESS,
-                                     'C03.unary': OPERATOR_WITNESS}
+                                     'C03.unary': OPERATOR_WITNESS, 'C05.only-documented-exceptions-escape': CONTAINMENT_WITNESS}
 
 BUDGET_WITNESS = _W_PRELUDE + """
 from bare_script.runtime import BareScriptRuntimeError
